@@ -68,6 +68,21 @@ def r1_constant(ctx):
     ok = unify(hl, ["for (range($2.n_individuals), ?i)", "?ip = " + IP_, "?ips.add_individual_parameters(str($2.indices[?i]), ?ip)", "return ?ips"]) is not None \
         or unify(hl, ["for (range($2.n_individuals), ?i)", "?ips.add_individual_parameters(str($2.indices[?i]), " + IP_ + ")", "return ?ips"]) is not None
     ctx.check(ok, "C20.R1", h, h.node, "each individual's own visits, keyed by its identifier and the model's features", "the personalisation no longer uses each individual's own visits / identifier / the model's features")
+    # the names the values are keyed by are those of the dataset the values are read from: the model's features are overwritten from
+    # this dataset on every call (same names in another column order would otherwise attach each value to the wrong feature)
+    hcfg = CFG(h.node)
+    hc = Canon(h.node)
+    inits = [n for n, st in hcfg.stmt.items() if isinstance(st, ast.Expr) and hc.text(st.value, False) == "$1.initialize($2)"]
+    loops_ = [n for n, st in hcfg.stmt.items() if isinstance(st, ast.For)]
+    if not inits:
+        ctx.violation("C20.R1", h, h.node, "the model's features are not taken from the dataset being personalised (`model.initialize(dataset)` is gone): values are keyed by stale feature names",
+                      construct="features from this dataset")
+    else:
+        guards = hcfg.if_guards(inits[0])
+        ok = not guards and all(hcfg.dominates(inits[0], l) for l in loops_)
+        ctx.check(ok, "C20.R1", h, hcfg.stmt[inits[0]], "the model's features are overwritten from this dataset, unconditionally, before the values are keyed",
+                  "`model.initialize(dataset)` is " + (f"only run when `{U(hcfg.stmt[guards[0][0]].test)[:80]}`" if guards else "not run before the values are read")
+                  + ": with the same feature names in another column order each value is attached to the wrong feature", construct="features from this dataset")
     m = ix.func("leaspy.models.constant", "ConstantModel.compute_individual_trajectory", "C20.R1")
     rets = Canon(m.node).returns()
     ok = len(rets) == 1 and rets[0] in ("torch.tensor([[[$2[%0] for %0 in $0.features]] * len($1)], dtype=torch.float32)",)
